@@ -344,9 +344,8 @@ def _(c):
     c.rec('C07', 'Time::extract: has exits', len(c.exits) > 0)
 
 
-def _hms_list(c, prop, name, with_usec, value_of=None, bool_result=False, unit_result=False, extra_first=None):
+def _hms_list(c, prop, name, with_usec, value_of=None, bool_result=False, unit_result=False, extra_first=None, base=0):
     """decision list L_hms evaluated abstractly in every exit state"""
-    base = 0
     for (st, ret) in c.exits:
         h, mi, s = [c.args[i].form for i in range(base, base + 3)]
         us = c.args[base + 3].form if with_usec else None
@@ -386,6 +385,66 @@ def _hms_list(c, prop, name, with_usec, value_of=None, bool_result=False, unit_r
 def _(c):
     _hms_list(c, 'C07', 'Time::try_from_hms', True,
               lambda h, mi, s, us: h.scale(H_US).add(mi.scale(MI_US)).add(s.scale(S_US)).add(us))
+
+
+@contract(r'^date::Date::and_hms$')
+def _(c):
+    d = c.argc(0)
+    _hms_list(c, 'C07', 'Date::and_hms', True,
+              lambda h, mi, s, us: d.scale(D_US).add(h.scale(H_US)).add(mi.scale(MI_US)).add(s.scale(S_US)).add(us), base=1)
+
+
+def _floor_parts(c, st, u, k):
+    """case split of u into k*q + r with 0 <= r < k (floor): list of (state, q, r)"""
+    out = []
+    uu = VInt(u, 'i64')
+    kk = VInt(F(k), 'i64')
+    for s2 in c.I.assume(st.copy(), ('cmp', 'ge', u, F(0)), True):
+        q = c.I.int_binop(s2, 'Div', uu, kk, 'i64')
+        out.append((s2, q, u.sub(q.scale(k))))
+    for s2 in c.I.assume(st.copy(), ('cmp', 'lt', u, F(0)), True):
+        q = c.I.int_binop(s2, 'Div', uu, kk, 'i64')
+        r = u.sub(q.scale(k))
+        for s3 in c.I.assume(s2.copy(), ('cmp', 'eq', r, F(0)), True):
+            out.append((s3, q, r))
+        for s3 in c.I.assume(s2.copy(), ('cmp', 'lt', r, F(0)), True):
+            out.append((s3, q.addc(-1), r.addc(k)))
+    return out
+
+
+@contract(r'^<(timestamp::Timestamp|oracle::Date) as DateTime>::(year|month|day|hour|minute)$')
+def _(c):
+    """the accessors report the fields of the (date, time) pair of extract(): date = floor(u / D), time = u - D*date"""
+    u = c.argc(0)
+    what = c.key.rsplit('::', 1)[1]
+    name = f"DateTime for {c.key[1:].split(' as ')[0]}: {what}"
+    n = 0
+    for (st, ret) in c.exits:
+        v = ret.variants.get(SOME) if isinstance(ret, VAdt) else None
+        if v is None or len(ret.variants) != 1 or not isinstance(v[0], VInt):
+            c.rec('C07', f"{name}: Some(field)", False, f"{ret!r}")
+            continue
+        f = v[0].form
+        for (s2, q, r) in _floor_parts(c, st, u, D_US):
+            n += 1
+            if what in ('year', 'month', 'day'):
+                ok, why = False, f"{f!r} is not the {what} of a calendar decomposition"
+                if len(f.terms) == 1 and f.c == 0 and f.terms[0][1] == 1:
+                    info = SYMTAB.syms[f.terms[0][0]]
+                    if info.kind == 'opaque' and info.data and info.data[0] == what:
+                        x = Form(info.data[1][0], info.data[1][1])           # the Julian day that was decomposed
+                        ok = s2.num.eq0(x.addc(-E_J).sub(q))
+                        why = f"{what} of day {x.addc(-E_J)!r}, the date of the pair is floor(u / D) = {q!r}"
+                c.rec('C07', f"{name} of the date part floor(u / D)", ok, why)
+            else:
+                rr = VInt(r, 'i64')
+                if what == 'hour':
+                    e = c.I.int_binop(s2, 'Div', rr, VInt(F(H_US), 'i64'), 'i64')
+                else:
+                    m_ = c.I.int_binop(s2, 'Rem', rr, VInt(F(H_US), 'i64'), 'i64')
+                    e = c.I.int_binop(s2, 'Div', VInt(m_, 'i64'), VInt(F(MI_US), 'i64'), 'i64')
+                c.rec('C07', f"{name} of the time part u - D*floor(u / D)", s2.num.eq0(f.sub(e)), f"{f!r} vs {e!r}")
+    c.rec('C07', f"{name}: has exits", n > 0)
 
 
 @contract(r'^time::Time::is_valid$')
@@ -965,7 +1024,11 @@ def _split_exits(I, exits):
     return out
 
 
+_CUR_INTERP = [None]
+
+
 def run_contracts(I, key, args, exits, variant=None):
+    _CUR_INTERP[0] = I
     raw = exits
     exits = _split_exits(I, exits)
     ctx = Ctx(I, key, args, exits, variant)
@@ -1084,6 +1147,18 @@ def _tbl_lookup(f: Form, table_suffix, index_expected, st):
         data = SYMTAB.syms[f.terms[0][0]].data
         if data and data[0] == 'tbl' and data[1].endswith(table_suffix):
             return _same(st, data[2], index_expected), f"index {data[2]!r} (expected {index_expected!r}) of {data[1]}"
+    # computed instead of looked up: compare with the rule for every value of the index
+    lo, hi = st.num.rng(index_expected)
+    if table_suffix.startswith('QUARTER_') and 0 <= lo <= hi <= 11:
+        from .interp import Interp  # noqa: F401  (assume lives on the interpreter; reached through the global below)
+        I = _CUR_INTERP[0]
+        for i in range(lo, hi + 1):
+            want = 3 * (i // 3) + 1 if table_suffix == 'QUARTER_FIRST_MONTH' else _quarter_rule(i + 1, table_suffix == 'QUARTER_ROUND_MONTH')
+            for s_i in I.assume(st.copy(), ('cmp', 'eq', index_expected, Form.const(i)), True):
+                a, b = s_i.num.rng2(f)
+                if (a, b) != (want, want):
+                    return False, f"month {i + 1}: the result month is in [{a}, {b}], the rule gives {want}"
+        return True, ''
     return False, f"{f!r} is not a lookup in {table_suffix}"
 
 
@@ -1259,11 +1334,26 @@ def _(c):
               e == 'DateOutOfRange' and a >= 9951, f"error {e} returned for years [{a}, {b}]")
 
 
-def _ymd_round(c, name, decide):
-    """decide(st, y, m, d) -> (y', m') expected forms, or 'err' if the rule's boundary is after 9999-12-31, or None if undecided"""
+def _ymd_round(c, name, decide, split_month=False):
+    """decide(st, y, m, d) -> (y', m') expected forms, or 'err' if the rule's boundary is after 9999-12-31, or None if undecided.
+    split_month: evaluate the rule per value of the month (and per side of the 16th) - for implementations whose own
+    branches are on a computed quantity rather than on the month itself"""
     parts = _k2_of(c.argc(0))
     n = 0
-    for (st, ret) in c.exits:
+    exits = c.exits
+    if split_month and parts is not None:
+        y, m, d = parts
+        exits = []
+        for (st, ret) in c.exits:
+            lo, hi = st.num.rng(m)
+            for k in range(max(lo, 1), min(hi, 12) + 1):
+                for s2 in c.I.assume(st.copy(), ('cmp', 'eq', m, F(k)), True):
+                    if _dec(c, s2, ('cmp', 'ge', d, F(16))) is None:
+                        exits.extend((s3, ret) for s3 in c.I.assume(s2.copy(), ('cmp', 'ge', d, F(16)), True))
+                        exits.extend((s3, ret) for s3 in c.I.assume(s2.copy(), ('cmp', 'ge', d, F(16)), False))
+                    else:
+                        exits.append((s2, ret))
+    for (st, ret) in exits:
         kind, v = c.split_result(ret)
         if parts is None:
             c.rec('C11', f"{name}: decomposition of self", False, '')
@@ -1351,7 +1441,7 @@ def _(c):
                 return 'err'
             return (y.addc(1), (tbl, m.addc(-1)))
         return (y, (tbl, m.addc(-1)))
-    _ymd_round(c, "round_quarter (up from the 16th of the quarter's second month)", rule)
+    _ymd_round(c, "round_quarter (up from the 16th of the quarter's second month)", rule, split_month=True)
 
 
 @contract(r'^<date::Date as Round>::round_week$')
@@ -1394,21 +1484,30 @@ def _float_scale(c, name, op, tdef):
                 c.rec('C14', f"{name}: zero divisor -> DivideByZero", kind == 'err' and v == 'DivideByZero' and len(fp) == 1, f"{kind} {v} after {fp}")
                 continue
             fp = fp[1:]
-        want_inf = (('is_inf', R))
-        want_nan = (('is_nan', R))
+        # what the classification tests of this path (in any order, possibly redundant) say about the result R
+        cls = {'fin', 'inf', 'nan'}
+        other = []
+        for (tst, truth) in fp:
+            if isinstance(tst, tuple) and len(tst) == 2 and tst[1] == R and tst[0] in ('is_inf', 'is_nan', 'is_fin'):
+                one = {tst[0][3:]}
+                cls = (cls & one) if truth else (cls - one)
+            else:
+                other.append((tst, truth))
+        if not cls:
+            continue            # contradictory tests: not a feasible path
         if kind == 'err' and v == 'NumericOverflow':
             seen.add(v)
-            c.rec('C14', f"{name}: infinite result -> NumericOverflow", fp == [(want_inf, True)], f"path tests {fp}")
+            c.rec('C14', f"{name}: infinite result -> NumericOverflow", cls == {'inf'} and not other, f"path tests {fp}")
         elif kind == 'err' and v == 'InvalidNumber':
             seen.add(v)
-            c.rec('C14', f"{name}: NaN result -> InvalidNumber", fp == [(want_inf, False), (want_nan, True)], f"path tests {fp}")
+            c.rec('C14', f"{name}: NaN result -> InvalidNumber", cls == {'nan'} and not other, f"path tests {fp}")
         elif kind == 'err' and v == 'IntervalOutOfRange':
             seen.add(v)
-            c.rec('C14', f"{name}: finite result outside the range -> IntervalOutOfRange", fp == [(want_inf, False), (want_nan, False)], f"path tests {fp}")
+            c.rec('C14', f"{name}: finite result outside the range -> IntervalOutOfRange", cls == {'fin'} and not other, f"path tests {fp}")
         elif kind == 'ok':
             seen.add('ok')
             cnt = c.count(v)
-            good = fp == [(want_inf, False), (want_nan, False)]
+            good = cls == {'fin'} and not other
             why = f"path tests {fp}"
             if good:
                 good = False
